@@ -27,7 +27,14 @@ Proof.
   intros ops. apply (lock_run_inv ops). unfold lock_inv. cbn. split; [discriminate|]. intros H. inversion H.
 Qed.
 
+(* the "absent marker" part of the statement is REFUTED (known finding E18): such a directory is refused, but only after
+   create_new has already acted on it *)
+Theorem C17_absent_marker_refuted :
+  exists d, ds_marker d = None /\ snd (open_db d) = IoError /\ In FsCreateLockFile (fst (open_db d)).
+Proof. exact absent_marker_refusal_has_effects. Qed.
+
 Print Assumptions C17_marker.
 Print Assumptions C17_refused_unmodified.
 Print Assumptions C17_locked_unmodified.
 Print Assumptions C17_lock_iff_handle.
+Print Assumptions C17_absent_marker_refuted.
